@@ -12,7 +12,8 @@ EXTENDS SgzFormat
 
 CONSTANT WBug     \* "none" | spec-level mutants: "switch_b0" (layout switch on blockshape[0] alone),
                   \*          "hash_pad_2d" (2-D hash includes the replicated padding traces),
-                  \*          "hash_whole_aligned" (3-D: the whole plane-set buffer is hashed when it has no x/z padding)
+                  \*          "hash_whole_aligned" (3-D: the whole plane-set buffer is hashed when it has no x/z padding),
+                  \*          "last_set_short" (the final plane set is always treated as the short one)
 
 \* conversion_utils.py:292/381 (3-D) and 326 (2-D): a whole plane set is one item iff the code's switch says so
 WholeSet(F) == IF F.dim = 2 THEN F.b[2] = 4
@@ -57,5 +58,20 @@ HashStream(F) ==
             LET toRead == IF g * F.b[2] > F.n[2] THEN F.n[2] % F.b[2] ELSE F.b[2]
                 rows   == IF WBug = "hash_pad_2d" THEN Min(F.b[2], F.n[2]) ELSE toRead
             IN  [i \in 1..rows |-> IF i <= toRead THEN (g - 1) * F.b[2] + i - 1 ELSE F.n[2] - 1]])
+\* Which source plane fills row i (1-based) of plane set ps (1-based) of the file-route producer (seismic_file_producer +
+\* io_thread_func): the real planes first, then the last populated plane repeated ("edge" replication along the plane axis;
+\* 2-D: traces of a group, the last trace repeated)
+PlaneRows(F, ps) ==
+    LET a == IF F.dim = 3 THEN 1 ELSE 2
+        n == F.n[a]
+        b == F.b[a]
+        short == IF WBug = "last_set_short" THEN ps = NBa(F, a) ELSE ps * b > n
+        toRead == IF short THEN n % b ELSE b
+    IN  [i \in 1..b |-> IF i <= toRead THEN (ps - 1) * b + i - 1
+                         ELSE IF F.dim = 3 THEN (ps - 1) * b + toRead - 1 ELSE n - 1]
+\* C01 / C09 (content half): every row is the source plane the edge-extended ideal has there
+EdgeRows(F) == LET a == IF F.dim = 3 THEN 1 ELSE 2
+               IN  \A ps \in 1..NBa(F, a) : \A i \in 1..F.b[a] : PlaneRows(F, ps)[i] = Min((ps - 1) * F.b[a] + i - 1, F.n[a] - 1)
+
 HashIsSource(F) == HashStream(F) = [i \in 1..(IF F.dim = 3 THEN F.n[1] ELSE F.n[2]) |-> i - 1]
 =============================================================================
